@@ -5,3 +5,5 @@ id=$1; checks=$2
 cd /repo && git apply /verif/seeded/$id/patch.diff || { echo "PATCH DOES NOT APPLY"; exit 1; }
 for c in $checks; do (cd /verif && ./check $c quick 2>&1 | grep -E 'VIOLATION|^property ' | sed 's/replay=[^ ]* //' | cut -c1-230); done
 git -C /repo checkout -- .
+# evidence files are rewritten by every run: restore the committed ones (they must describe the clean tree)
+git -C /verif checkout -- evidence 2>/dev/null
